@@ -15,7 +15,11 @@ META = {
     'text': 'All histories up to the depth bound for timeouts {0, 0.5, 10} x speculative executions {0, 1 (delay 1.0)} x '
             'first page and one further page fetch, plus configurations with more speculative executions than hosts in the '
             'plan (3 on 2 hosts, 1-2 on 1 host) and speculative delays that do not fit / exactly fit the remaining time '
-            '(0.4 x3, 0.5 x2, 2.0 x1 with timeout 1.0): answers may never come.  Invariant in every state: an unfinished '
+            '(0.4 x3, 0.5 x2, 2.0 x1 with timeout 1.0), plus an application USE statement with timeout {0, 1.0} (the coordinator '
+            'answers, the USE the driver then sends on every pool to propagate the keyspace may be answered, refused, fail or '
+            'stay unanswered for ever) and an EXECUTE of a prepared statement with timeout 1.0 that is answered UNPREPARED '
+            '(re-prepare task, PREPARE, second EXECUTE, each possibly never answered; the timeout may fire while any of the '
+            'follow-up tasks is still queued): answers may never come.  Invariant in every state: an unfinished '
             'page fetch has virtual time <= its start + timeout + 30 ms (the documented PYTHON-853 re-arm), a finished one '
             'finished by then; when no timer and no task is left every fetch has finished.',
     'note': 'Query plans are finite (3 hosts).  Time is the virtual clock that every driver module reads; it advances only '
